@@ -17,8 +17,9 @@ EXTENDS Integers, Sequences, FiniteSets, TLC
 \*  1 ASCII "Alpha"   2 empty   3 BMP non-ASCII (3 units)
 \*  4 surrogate pair + 1 (3 units)   5 2000 units of mixed content
 \*  6 Latin-1 beyond ASCII: every code unit below U+0100, some at or above U+0080 (6 units)
-TextLen == <<5, 0, 3, 3, 2000, 6>>
-Texts == 1..6
+\*  7 ends in a code unit whose low byte is zero (U+4E00), after U+0100 (3 units)
+TextLen == <<5, 0, 3, 3, 2000, 6, 3>>
+Texts == 1..7
 MinI(a, b) == IF a < b THEN a ELSE b
 
 Rec(lang, country, tid) == [lang |-> lang, country |-> country, tid |-> tid]
